@@ -45,7 +45,7 @@ def cases(tier, fx, seed):
     return L
 
 def run(tier, seed):
-    wd = os.path.join(VERIF, 'build', 'C18')
+    wd = os.path.join(BUILD, 'C18')
     shutil.rmtree(wd, ignore_errors=True)
     fx = build_fixture(wd, 'c18', open(os.path.join(VERIF, 'kernels', 'c18.cpp')).read())
     return execute('C18', tier, seed, cases(tier, fx, seed), ASSUME)
